@@ -5,7 +5,7 @@ use crate::function::sync::ClaimResult;
 use crate::function::{Configuration, IngredientImpl, Reentrancy};
 use crate::zalsa::{MemoIngredientIndex, Zalsa};
 use crate::zalsa_local::{QueryRevisions, ZalsaLocal};
-use crate::{Cancelled, DatabaseKeyIndex, Id};
+use crate::{Cancelled, DatabaseKeyIndex, Durability, Id};
 
 impl<C> IngredientImpl<C>
 where
@@ -34,9 +34,17 @@ where
         self.eviction.record_use(id);
 
         let revisions = &memo.header.revisions;
+        // A never-changing value of a specifiable function can still be replaced by a later
+        // `specify`, so readers must keep their dependency edge on it: edges to
+        // `NEVER_CHANGE` dependencies are otherwise omitted.
+        let durability = if C::CAN_SPECIFY {
+            revisions.durability.min(Durability::HIGH)
+        } else {
+            revisions.durability
+        };
         zalsa_local.report_tracked_read(
             database_key_index,
-            revisions.durability,
+            durability,
             revisions.changed_at,
             memo.header.cycle_heads(),
             #[cfg(feature = "accumulator")]
